@@ -1830,7 +1830,7 @@ sexp sexp_expt_op (sexp ctx, sexp self, sexp_sint_t n, sexp x, sexp e) {
       res = sexp_make_flonum(ctx, pow(sexp_flonum_value(x), sexp_bignum_to_double(e)));
     else
       res = sexp_make_flonum(ctx, pow(10.0, 1e100));   /* +inf.0 */
-  } else if (sexp_bignump(x)) {
+  } else if (sexp_bignump(x) && sexp_fixnump(e)) {
     res = sexp_bignum_expt(ctx, x, e);
   } else {
 #endif
@@ -1838,6 +1838,10 @@ sexp sexp_expt_op (sexp ctx, sexp self, sexp_sint_t n, sexp x, sexp e) {
     x1 = sexp_unbox_fixnum(x);
   else if (sexp_flonump(x))
     x1 = sexp_flonum_value(x);
+#if SEXP_USE_BIGNUMS
+  else if (sexp_bignump(x))     /* bignum base with a non-integer exponent */
+    x1 = sexp_bignum_to_double(x);
+#endif
 #if SEXP_USE_RATIOS
   else if (sexp_ratiop(x)) {
     if (sexp_fixnump(e)) {
